@@ -20,7 +20,7 @@ import (
 // C06: parallel tests sharing a snapshot file are serialisable (DESIGN.md §5).
 
 func init() {
-	register("C06", "model_checking", "per-branch primitive programs are EXTRACTED from the current code through the scheduler gate (imports of package snaps rewritten to yield shims via go test -overlay), TLC interleaves them exhaustively (GoSnapsConc: Serialisable, NeverTorn), counterexample schedules are replayed on the real code, schedules of the real code are enumerated depth-first with bounded preemption and judged by TLC (MC_ConcCheck); Go race detector on parallel programs", checkC06)
+	register("C06", "model_checking", "per-branch primitive programs are EXTRACTED from the current code through the scheduler gate (imports of package snaps rewritten to yield shims via go test -overlay), TLC interleaves them exhaustively (GoSnapsConc: Serialisable, NeverTorn, NoDeadlock under Go's writer-preferring RWMutex), counterexample schedules are replayed on the real code, schedules of the real code are enumerated depth-first with bounded preemption and judged by TLC (MC_ConcCheck), their primitive logs are validated against GoSnapsConc (TraceConc); Go race detector on parallel programs", checkC06)
 }
 
 var concKinds = []string{"create", "match", "mismatch", "update"}
@@ -625,7 +625,7 @@ func checkC06(c *CheckCtx) error {
 				replay = append(replay, &concCase{calls: pairs[i].calls, order: pairs[i].order, schedule: sched})
 			}
 		}
-		c.model(fmt.Sprintf("MC_Conc (%d configurations of extracted programs)", len(pairs)), &tot, true, fmt.Sprintf("Serialisable and NeverTorn; %d counterexample schedule(s) exported for replay on the real code", leads))
+		c.model(fmt.Sprintf("MC_Conc (%d configurations of extracted programs)", len(pairs)), &tot, true, fmt.Sprintf("Serialisable, NeverTorn and NoDeadlock; %d counterexample schedule(s) exported for replay on the real code", leads))
 	}
 	// replay TLC's counterexamples on the real code through the gates
 	if len(replay) > 0 {
